@@ -1137,7 +1137,7 @@ fn group_by_suffix(
                 .of_file_len(fi.len);
             ctx.hasher
                 .hash_file_or_log_err(&chunk, |_| {})
-                .map(|new_hash| old_hash ^ new_hash)
+                .map(|new_hash| old_hash.combine(&new_hash))
         },
     );
 
